@@ -287,7 +287,6 @@ pub fn run(ctx: &Ctx) -> i32 {
     programs(ctx, thorough);
     distribute(ctx);
     lookups(ctx);
-    palette_chunk_order(ctx);
     ctx.assume("the encoder and reference interpreter (mc-core) implement the Aseprite file specification; validated by byte-exact re-encoding of the 44 corpus files and whole-API agreement on 43 of them (mc selftest)");
     ctx.finish()
 }
@@ -489,49 +488,6 @@ fn distribute(ctx: &Ctx) {
             }
         }
         conform(ctx, fam, &case, &f, &want);
-    });
-}
-
-
-/// (f) several palette chunks: the sprite reports the new-format palette wherever it stands relative to legacy
-/// palette chunks (two new-format chunks, and two legacy chunks, are not defined by the model and not claimed)
-fn palette_chunk_order(ctx: &Ctx) {
-    let fam = "palette-chunk-order";
-    if !ctx.wants_family(fam) {
-        return;
-    }
-    // chunk sequence letters: N = new-format chunk A (3 entries from index 2, one translucent and named),
-    // M = new-format chunk B (5 other entries from index 0), O = legacy 0x0004, P = legacy 0x0011
-    let seqs = ["N", "ON", "NO", "PN", "NP", "OPN", "ONP", "NOP", "PON", "O", "P"];
-    let cases: Vec<(usize, usize, bool)> = (0..seqs.len()).flat_map(|s| (0..3usize).flat_map(move |f| [false, true].into_iter().map(move |split| (s, f, split)))).collect();
-    ctx.family(fam, cases.len() as u64, "every order of a new-format palette chunk and legacy 0x0004 / 0x0011 chunks with different contents (entry count, first index, alpha, names), a legacy chunk alone; all in the first frame, or the last chunk moved to the second frame; 3 pixel formats: palette entries, names and count compared with the model", true);
-    cases.par_iter().for_each(|(si, fi, split)| {
-        let case = || format!("chunks={} fmt{} last-chunk-in-frame-1={}", seqs[*si], fi, split);
-        if !ctx.wants(fam, &case) {
-            return;
-        }
-        let fmt = [Fmt::Rgba, Fmt::Gray, Fmt::Indexed(0)][*fi].clone();
-        let mut f = gen::file(2, 2, &fmt, &[10, 20]);
-        let letters: Vec<char> = seqs[*si].chars().collect();
-        for (k, c) in letters.iter().enumerate() {
-            let body = match c {
-                'N' => new_palette(2, vec![pal_entry([10, 20, 30, 255], Some("ten")), pal_entry([200, 40, 80, 128], Some("glass")), pal_entry([1, 2, 3, 0], None)]),
-                'M' => new_palette(0, pal_entries(5, 9)),
-                'O' => Body::OldPalette04(old_palette(vec![(0, vec![[8, 20, 28], [99, 98, 97]])])),
-                _ => Body::OldPalette11(old_palette(vec![(1, vec![[5, 6, 7], [63, 0, 31], [1, 1, 1], [2, 2, 2]])])),
-            };
-            let fr = if *split && k + 1 == letters.len() && letters.len() > 1 { 1 } else { 0 };
-            f.frames[fr].push(body);
-        }
-        f.frames[0].push(Body::Layer(Layer::image("l")));
-        let mut w = Want::structure_only();
-        w.pal_probes = (0..12).collect();
-        if let Err(e) = mc_core::sem::interpret(&f) {
-            // the reference model does not define this arrangement: not claimed
-            ctx.note(format!("palette-chunk-order {}: outside the reference model ({}), skipped", case(), e));
-            return;
-        }
-        conform(ctx, fam, &case, &f, &w);
     });
 }
 
